@@ -75,3 +75,23 @@ Proof.
   intros seal wrap_dek dek nonce plaintext Hd. unfold gen_encrypt_seed. cbv zeta.
   replace (lenN dek =? 32) with false by (unfold lenN, DEK_LEN_BYTES in *; lia). reflexivity.
 Qed.
+
+(* ------------------------------------------------------------------ C14 of the code as written *)
+Require Import RV.Spec.EnvelopeGoals RV.Proofs.EnvelopeFacts.
+
+Theorem gen_roundtrip : forall seal open wrap unwrap dek nonce p w,
+    length dek = 32%nat -> length nonce = 12%nat -> (32 <= length p)%nat ->
+    length (seal dek nonce AD p) = (length p + 16)%nat ->
+    open dek nonce AD (seal dek nonce AD p) = Some p ->
+    wrap dek = Ok w -> unwrap w = Ok dek -> (N.of_nat (length w) < 65536) ->
+    exists blob, gen_encrypt_seed nonce dek wrap seal tt p = Ok blob
+                 /\ gen_decrypt_seed unwrap open tt blob = Ok p.
+Proof.
+  intros seal open wrap unwrap dek nonce p w Hd Hn Hp Hs Ho Hw Hu Hlen.
+  destruct (env_roundtrip seal open wrap unwrap dek nonce p w Hd Hn Hp Hs Ho Hw Hu Hlen) as [blob [He Hdec]].
+  exists blob. rewrite gen_encrypt_seed_model by exact Hd. rewrite gen_decrypt_seed_model. split; assumption.
+Qed.
+
+Theorem gen_decrypt_no_panic : forall open unwrap, (forall w, is_panic (unwrap w) = false) ->
+  forall blob, is_panic (gen_decrypt_seed unwrap open tt blob) = false.
+Proof. intros open unwrap Hu blob. rewrite gen_decrypt_seed_model. exact (env_no_panic open unwrap Hu blob). Qed.
